@@ -20,7 +20,7 @@ func init() {
 		ID:    "C10",
 		Level: "exploration",
 		Rule: "server half: a raw client proposes msize P with version string V to p9p.ServeConn (scripted handler) for P in {0..30, 255, 256, 4096, 65535, 65536, 65537, 2^31-1, 2^31, 2^32-1, rnd} x V in {9P2000, 9P2000.u, 9P1999, empty, long, unknown}, or opens with a message that is not Tversion; after a successful handshake a fixed battery runs: " +
-			"maximal Tread (count 2^32-1, the handler fills whatever count it is given), a client frame of exactly msize (must reach the handler intact), msize-1 and msize+1 frames, and a handler result larger than msize. client half: p9p.CSession against a fake server answering msize S (same value set) and version V'; battery: Read into a 1 MiB buffer, Write of 1 MiB, " +
+			"maximal Tread (count 2^32-1, the handler fills whatever count it is given), a client frame of exactly msize (must reach the handler intact), msize-1 and msize+1 frames, and a handler result larger than msize (a huge Rstat, or an Rread carrying 1, 4 or msize bytes more than the clipped count allows). client half: p9p.CSession against a fake server answering msize S (same value set) and version V'; battery: Read into a 1 MiB buffer, Write of 1 MiB, " +
 			"Stat/Walk/Create/Attach with strings around the limit, and a server reply of exactly the agreed msize (must be accepted). Oracle (frame-length monitor on the reference-codec parsed wire in both directions + min rule): Rversion.msize == min(P, 65536) and never more; Version() == min(65536, S); no later frame in either direction is longer than the agreed value; " +
 			"exact-size frames are accepted; a first message that is not Tversion, or a P that cannot carry the 19-byte Rversion, ends the connection without any handler invocation. non-trivial = agreed msize < 65536 or a refusal; distinct by (P or S, V class, half)",
 		Assumptions: []string{
@@ -103,7 +103,17 @@ func c10Server(w *mon.W, P uint32, V string, vi int) {
 	sh.instant = func(msg p9p.Message) (p9p.Message, error, bool) {
 		switch m := msg.(type) {
 		case p9p.MessageTread:
-			return p9p.MessageRread{Data: make([]byte, m.Count)}, nil, true
+			// the handler fills whatever count it is given - up to 1 MiB, which is already far
+			// beyond any msize (a count that arrives unclipped must not cost gigabytes here)
+			n := m.Count
+			if n > 1<<20 {
+				n = 1 << 20
+			}
+			if m.Fid == 2 {
+				// a handler that returns more than it was asked for
+				n += uint32(m.Offset)
+			}
+			return p9p.MessageRread{Data: make([]byte, n)}, nil, true
 		case p9p.MessageTwrite:
 			seenWrite = append([]byte{}, m.Data...)
 			return p9p.MessageRwrite{Count: uint32(len(m.Data))}, nil, true
@@ -217,7 +227,14 @@ func c10Server(w *mon.W, P uint32, V string, vi int) {
 		}
 	}
 	// handler result larger than msize: nothing over-long may be emitted
-	h.send(&p9p.Fcall{Type: p9p.Tstat, Tag: 3, Message: p9p.MessageTstat{Fid: 1}})
+	if w.Rng.Intn(2) == 0 {
+		// ... an Rread carrying 1, 4 or msize bytes more than the (clipped) count allows
+		extra := []int{1, 4, M}[w.Rng.Intn(3)]
+		h.send(&p9p.Fcall{Type: p9p.Tread, Tag: 3, Message: p9p.MessageTread{Fid: 2, Offset: uint64(extra), Count: 1<<32 - 1}})
+		w.Count("server:oversize-rread-result", 1)
+	} else {
+		h.send(&p9p.Fcall{Type: p9p.Tstat, Tag: 3, Message: p9p.MessageTstat{Fid: 1}})
+	}
 	if !settle() {
 		return
 	}
